@@ -58,7 +58,7 @@ pub fn permute_file(file: &GFile, perm: &[usize]) -> GFile {
 ///  * `escape`: a mutable variable is read in an eagerly evaluated position of a loop body before
 ///    it is assigned a scoped variable. The checker rejects these today; whenever such a file is
 ///    accepted, every order must still give the same outcome.
-fn family(rng: &mut Rng) -> (Vec<String>, &'static str) {
+pub fn family(rng: &mut Rng) -> (Vec<String>, &'static str) {
     const VALUES: &[&str] = &["#null", "1", "2", "\"a\"", "#true", "[]", "[1]", "@m", "(source-text @m)", "#null", "1"];
     let which = rng.below(6);
     if which == 4 {
@@ -107,7 +107,11 @@ fn family(rng: &mut Rng) -> (Vec<String>, &'static str) {
             _ => ("[]", "[7]", "if (not (is-empty [ zz_j for zz_j in zz_c ])) { attr (zz_n) hit = zz_i }", "escape_comprehension_source"),
         };
         let definer = format!("(module) @m {{ let @m.zz_v = {} }}", scoped);
-        let reader = format!("(module) @m {{ node zz_n var zz_c = {} for zz_i in [1, 2] {{ {} set zz_c = @m.zz_v }} }}", init, use_);
+        // optionally a local assignment first (the variable stays non-local all the same), or the
+        // scoped assignment hidden in an arm that the first iteration does not take
+        let pre = if rng.chance(1, 3) { format!("set zz_c = {} ", init) } else { String::new() };
+        let assign = if rng.chance(1, 3) { "if (eq zz_i 1) { set zz_c = @m.zz_v }".to_string() } else { "set zz_c = @m.zz_v".to_string() };
+        let reader = format!("(module) @m {{ node zz_n var zz_c = {} {}for zz_i in [1, 2, 3] {{ {} {} }} }}", init, pre, use_, assign);
         let mut st = vec![definer, reader];
         if rng.chance(1, 2) {
             st.push("(module) @m { node zz_other }".to_string());
